@@ -40,6 +40,19 @@ Definition vary_ok (impl up : hdr) : bool :=
   let b := olist (hvals up H_VARY) in
   vals_eqb a b || (existsb (beq H_AE) a && vals_eqb (remove_one H_AE a) b).
 
+(* informational responses: model = impl; spec: the upstream's codes in order, each with the
+   upstream's headers apart from Vary *)
+Fixpoint list_eqb2 {A B} (f : A -> B -> bool) (a : list A) (b : list B) : bool :=
+  match a, b with
+  | [], [] => true
+  | x :: a', y :: b' => f x y && list_eqb2 f a' b'
+  | _, _ => false
+  end.
+Definition info_eqb : list (N * hdr) -> list (N * hdr) -> bool :=
+  list_eqb2 (fun x y => (fst x =? fst y) && hdr_eqb (snd x) (snd y)).
+Definition info_ok : list (N * hdr) -> list (N * hdr) -> bool :=
+  list_eqb2 (fun x y => (fst x =? fst y) && hdr_eqb_except [H_VARY] (snd x) (snd y) && vary_ok (snd x) (snd y)).
+
 (* Content-Type: what the upstream set, or, when it set none, what DetectContentType says
    about the first chunk written *)
 Definition first_write (ops : list op) : option str :=
@@ -53,12 +66,13 @@ Inductive case :=
        (ctm_tbl : list (str * bool))     (* contentTypes.MatchString on every content type of the case *)
        (sniff_tbl : list (str * str))    (* http.DetectContentType(first chunk written) *)
        (i_panic : bool) (i_code : N) (i_hdr : hdr)
+       (i_info : list (N * hdr))         (* informational responses the underlying writer received *)
        (i_body : str)                    (* the recorder's body *)
        (i_gunzip : option str).          (* compress/gzip's reader on that body, None = not a gzip stream *)
 
 Definition check_case (c : case) : N :=
   match c with
-  | Case h0 accept ae ops ctm_tbl sniff_tbl i_panic i_code i_hdr i_body i_gunzip =>
+  | Case h0 accept ae ops ctm_tbl sniff_tbl i_panic i_code i_hdr i_info i_body i_gunzip =>
       let sniffT := fun b => match lookup sniff_tbl b with Some t => t | None => [0] end in
       let ctmT := fun t => match lookup ctm_tbl t with Some r => r | None => false end in
       let m := handler sniffT ctmT h0 accept ae ops in
@@ -76,6 +90,7 @@ Definition check_case (c : case) : N :=
         && Bool.eqb i_panic (o_panic m)
         && (i_code =? o_code m)
         && hdr_eqb i_hdr (o_hdr m)
+        && info_eqb i_info (o_info m)
         && match o_fed m with
            | Some f => beq (o_plain m) [] && opt_eqb beq i_gunzip (Some f)
            | None => beq i_body (o_plain m)
@@ -100,7 +115,7 @@ Definition check_case (c : case) : N :=
         && opt_eqb beq i_gunzip (Some (written ops))
         && hdr_eqb_except [H_VARY; H_CT; H_CE; H_CL] i_hdr (o_hdr up)
         && vary_ok i_hdr (o_hdr up) && ct_ok in
-      let spec := negb i_panic && (i_code =? o_code up) && (identity || compressed) in
+      let spec := negb i_panic && (i_code =? o_code up) && info_ok i_info (o_info up) && (identity || compressed) in
       let region := if q0_region ae then Some 1 else None in
       let nontrivial := match o_fed m with Some _ => true | None => negb (beq (o_plain m) []) end in
       verdict same spec region nontrivial
